@@ -62,7 +62,7 @@ func TestForcedRapid(t *testing.T) {
 	})
 }
 
-// TestForcedGrid: every configuration with n<=4, ante<=2, SB<=1, BB<=2, dealer
+// TestForcedGrid: every configuration with n<=4, ante<=2, SB<=2, BB 1..3, dealer
 // blind in {0,2}, bankrolls 1..5, every button position, live/dead small blind.
 func TestForcedGrid(t *testing.T) {
 	st := vlib.NewStats("forced-grid")
@@ -83,8 +83,8 @@ func TestForcedGrid(t *testing.T) {
 				x /= 5
 			}
 			for _, ante := range []int64{0, 1, 2} {
-				for _, sb := range []int64{0, 1} {
-					for _, bb := range []int64{1, 2} {
+				for _, sb := range []int64{0, 1, 2} {
+					for _, bb := range []int64{1, 2, 3} {
 						for _, db := range []int64{0, 2} {
 							for dealer := 0; dealer < n; dealer++ {
 								for _, dead := range []bool{false, true} {
